@@ -121,11 +121,15 @@ pub fn seq_case_n(text: &str, n: usize, bridged: bool, seq: &[usize], fresh: &mu
     out
 }
 
-fn decode_seq(mut k: u64, len: usize) -> Vec<usize> {
+fn decode_seq(k: u64, len: usize) -> Vec<usize> {
+    decode_seq_a(k, len, CALLS)
+}
+
+fn decode_seq_a(mut k: u64, len: usize, alphabet: usize) -> Vec<usize> {
     let mut s = vec![];
     for _ in 0..len {
-        s.push((k % CALLS as u64) as usize);
-        k /= CALLS as u64;
+        s.push((k % alphabet as u64) as usize);
+        k /= alphabet as u64;
     }
     s
 }
@@ -164,7 +168,7 @@ pub fn run_c11(run: &Run) {
             || (0u64, 0u64, 0u64, std::collections::BTreeSet::<u64>::new()),
             |st, k| {
                 let c = src.get(k);
-                let mut fresh: Vec<Option<Norm>> = vec![None; CALLS];
+                let mut fresh: Vec<Option<Norm>> = vec![None; CALLS_EXT];
                 st.0 += 1;
                 for len in 0..=maxlen {
                     for sk in 0..(CALLS as u64).pow(len as u32) {
@@ -193,6 +197,48 @@ pub fn run_c11(run: &Run) {
         }
         run.extra(&format!("sequences_per_adf[{}]", name), json!(per_adf));
     }
+    // abandoned enumerations: all sequences over the alphabet extended by "first model only" variants of the lazy
+    // enumerations that contain at least one of them (what an abandoned enumeration leaves behind in the shared
+    // tables must not matter later)
+    {
+        let plan: Vec<(Source, usize, bool)> = if quick {
+            vec![(Source::FamCompact(fam_a(2)), 3, false), (Source::FamCompact(fam_f(3, 1)), 2, false), (Source::FamCompact(fam_f(3, 1)), 2, true)]
+        } else {
+            vec![(Source::FamCompact(fam_a(2)), 3, false), (Source::FamCompact(fam_f(3, 1)), 3, false), (Source::FamCompact(fam_a(2)), 3, true), (Source::FamCompact(fam_f(3, 1)), 2, true)]
+        };
+        for (src, maxlen, bridged) in plan {
+            let name = format!("call sequences of length <= {} with abandoned enumerations on {} ({})", maxlen, src.name(), if bridged { "bridged" } else { "native" });
+            let res = run.par_family(
+                &name,
+                src.size(),
+                || (0u64, 0u64),
+                |st, k| {
+                    let c = src.get(k);
+                    let mut fresh: Vec<Option<Norm>> = vec![None; CALLS_EXT];
+                    for len in 1..=maxlen {
+                        for sk in 0..(CALLS_EXT as u64).pow(len as u32) {
+                            if run.violations_so_far() > 200 {
+                                return;
+                            }
+                            let seq = decode_seq_a(sk, len, CALLS_EXT);
+                            if !seq.iter().any(|c| *c >= CALLS) {
+                                continue;
+                            }
+                            st.0 += 1;
+                            st.1 += len as u64;
+                            for (kind, msg) in seq_case(&c.text, &c.tts, bridged, &seq, &mut fresh, len <= 2) {
+                                run.violation(&kind, format!("{} on {}", msg, c.text), json!({"type": "call_seq", "text": c.text, "tts": c.tts, "bridged": bridged, "calls": seq}));
+                            }
+                        }
+                    }
+                },
+                &|k| src.describe(k),
+            );
+            for st in res {
+                run.add_counts(0, st.1, st.0, st.0);
+            }
+        }
+    }
     // mid-size objects: ring ADFs with 6 and 7 statements and large sparse ADFs, sequences of length <= 2 (<= 1)
     {
         let mid: Vec<(Source, usize)> = if quick {
@@ -210,7 +256,7 @@ pub fn run_c11(run: &Run) {
                     let c = src.get(k / 2);
                     let bridged = k % 2 == 1;
                     let n = c.labels.len();
-                    let mut fresh: Vec<Option<Norm>> = vec![None; CALLS];
+                    let mut fresh: Vec<Option<Norm>> = vec![None; CALLS_EXT];
                     run.heartbeat();
                     for len in 0..=maxlen {
                         for sk in 0..(CALLS as u64).pow(len as u32) {
